@@ -7,7 +7,7 @@ use crate::items::*;
 use crate::targets::*;
 use embedded_graphics::geometry::Point;
 use embedded_graphics::pixelcolor::{BinaryColor, Rgb565};
-use embedded_graphics::primitives::{Polyline, PointsIter, Primitive, PrimitiveStyle, StrokeAlignment};
+use embedded_graphics::primitives::{Polyline, PointsIter, Primitive, PrimitiveStyle, StrokeAlignment, StrokeStyle};
 use embedded_graphics::transform::Transform;
 use embedded_graphics::Drawable;
 
@@ -15,13 +15,15 @@ pub fn prop() -> Prop {
     Prop {
         id: "C07",
         level: "exploration",
-        rule: "proptest tapes decoding to a drawable (all item kinds of C01; a dedicated sub-check for triangles and polylines with stroke widths 2..=10) and an offset d in [-60,60]^2 (also d derived from the object's position so that it is moved across an axis). Oracle (metamorphic): pixel map of draw(x.translate(d)) == pixel map of draw(x) shifted by d; same for translate_mut, for Styled::translate, for polylines whose vertices are moved instead, for points() (as a sequence), contains() on a probe grid, non-empty bounding boxes, and the next position returned by text. Non-trivial: d != 0, >= 2 pixels, and for the thick-join sub-check width >= 2 with a non-colinear join.",
-        assumptions: vec!["coordinates stay within +-200 so no arithmetic overflow can interfere"],
+        rule: "proptest tapes decoding to a drawable (all item kinds of C01; a dedicated sub-check for triangles and polylines with stroke widths 2..=10, one for the drawables rendered through Real arithmetic - dotted rectangles with round dots, arcs, sectors - in both builds) and an offset d in [-60,60]^2 (also d derived from the object's position so that it is moved across an axis). Oracle (metamorphic): pixel map of draw(x.translate(d)) == pixel map of draw(x) shifted by d; same for translate_mut, for Styled::translate, for polylines whose vertices are moved instead, for points() (as a sequence), contains() on a probe grid, non-empty bounding boxes, and the next position returned by text. Non-trivial: d != 0, >= 2 pixels, and for the thick-join sub-check width >= 2 with a non-colinear join.",
+        assumptions: vec!["coordinates stay within +-200 (sub-check far_offsets: offsets to +-30000, the i16 scale of scrolled-out content) so no arithmetic overflow can interfere"],
         subs: vec![
             Sub::tape("items", 300, 150_000, 7_500_000, |d, cx| run_items(d, cx)),
             Sub::tape("thick_joins", 40, 100_000, 5_000_000, thick_joins),
             Sub::tape("large", 40, 1_500, 75_000, large),
             Sub::tape("primitives_queries", 30, 100_000, 5_000_000, queries).with_fp(),
+            Sub::tape("real_arithmetic", 40, 60_000, 3_000_000, real_arithmetic).with_fp(),
+            Sub::tape("far_offsets", 300, 60_000, 3_000_000, far_offsets).with_fp(),
         ],
     }
 }
@@ -146,6 +148,59 @@ fn thick_joins(d: &mut Dec, cx: &mut Cx) -> Res {
     };
     let _ = StrokeAlignment::Center;
     cx.nontrivial(by != Point::zero() && n >= 2 && noncolinear);
+    Ok(())
+}
+
+/// The drawables whose rendering goes through `Real` (f32 or, with `fixed_point`, I16F16): dotted
+/// rectangles with round dots, styled arcs and sectors. Run in both builds.
+fn real_arithmetic(d: &mut Dec, cx: &mut Cx) -> Res {
+    type C = Rgb565;
+    let kind = d.pick(&[0u32, 0, 6, 7]);
+    let max = if d.ratio(1, 3) { 70 } else { 30 };
+    let s = gen::shape_of_kind(d, kind, ShapeDom { r: 30, max });
+    let mut st = gen::style::<C>(d, 14);
+    if kind == 0 {
+        st.stroke_style = StrokeStyle::Dotted;
+        if d.ratio(2, 3) {
+            st.stroke_color = Some(C::nth(2));
+            st.stroke_width = d.u(4, 14);
+        }
+    }
+    let item: Item<C> = Item::Styled(s, st);
+    let by = offset(d, item.bounding_box().top_left);
+    cx.describe(|| format!("{} {:?} translate by {:?}", item.desc(), st.stroke_style, by));
+    cx.class(match (kind, st.stroke_width >= 4) {
+        (0, true) => "dotted_rectangle_round_dots",
+        (0, false) => "dotted_rectangle_square_dots",
+        (6, _) => "arc",
+        _ => "sector",
+    });
+    let n = check_item_translation(&item, by)?;
+    cx.nontrivial(by != Point::zero() && n >= 2);
+    Ok(())
+}
+
+/// Small drawables moved far away from the origin (scrolled-out content): offsets up to +-FAR.
+fn far_offsets(d: &mut Dec, cx: &mut Cx) -> Res {
+    type C = Rgb565;
+    // i16-scale scrolling distances. (Beyond +-46340 `Triangle::area_doubled` multiplies absolute
+    // coordinates in i32: with overflow checks that panics, without them the wrapped result is still
+    // right. That scale is outside every stated domain, so it is not probed.)
+    let far: i32 = 30_000;
+    let kind = d.u(0, ITEM_KINDS - 1);
+    let dom = ItemDom { r: 30, max: if d.ratio(1, 5) { 40 } else { 14 }, max_width: 10, dotted: true, text_len: 10 };
+    let item = gen_item::<C>(d, kind, dom);
+    let c = |d: &mut Dec| match d.u(0, 3) {
+        0 => d.i(-far, far),
+        1 => d.pick(&[-far, far, -32768, 32767, 32768, -32769, 16384, -16384]).clamp(-far, far),
+        2 => 0,
+        _ => d.i(-far / 16, far / 16),
+    };
+    let by = Point::new(c(d), c(d));
+    cx.describe(|| format!("{} translate by {:?}", item.desc(), by));
+    cx.class(KIND_NAMES[kind as usize]);
+    let n = check_item_translation(&item, by)?;
+    cx.nontrivial(by.x.abs().max(by.y.abs()) >= 2000 && n >= 2);
     Ok(())
 }
 
